@@ -100,4 +100,64 @@ def diamondRun (fixed : Bool) (cap : Nat) (as bs : List Int) : Bool × Bool × L
   let (s, term) := roundRobin N 6 400 (diamondInit as bs)
   (term, allHaltedB N 6 s, (s.procs 5).1.reg, (List.range 6).map (fun p => (s.procs p).1.pc))
 
+/-! ### `helper.Change(c, k)` = Subtract(Skip(d1, k), Buffered(d0, k)) with d0, d1 = Duplicate(c) -/
+
+/-- `Pipe(in, out)`: copy, then close -/
+def pipe (inp out : Nat) (l : Loc) : A :=
+  match l.pc with
+  | 0 => .recv inp (fun r => match r with | some v => ⟨1, [v]⟩ | none => ⟨2, []⟩)
+  | 1 => .send out (l.reg.headD 0) ⟨0, []⟩
+  | 2 => .close out ⟨3, []⟩
+  | _ => .halt
+
+/-- `Skip(in, out, k)`: drop up to k values (stop early if the input ends), then copy; `reg` holds the remaining count -/
+def skipM (inp out : Nat) (l : Loc) : A :=
+  match l.pc with
+  | 0 => if l.reg.headD 0 ≤ 0 then .recv inp (fun r => match r with | some v => ⟨1, [0, v]⟩ | none => ⟨2, []⟩)
+         else .recv inp (fun r => match r with | some _ => ⟨0, [l.reg.headD 0 - 1]⟩ | none => ⟨0, [0]⟩)
+  | 1 => .send out (l.reg.getD 1 0) ⟨0, [0]⟩
+  | 2 => .close out ⟨3, []⟩
+  | _ => .halt
+
+/-- `Operate(a, b, fun x y => x - y)` after the fix: close, then drain -/
+def subtractNew (a b out : Nat) (l : Loc) : A :=
+  match l.pc with
+  | 0 => .recv a (fun r => match r with | some v => ⟨1, [v]⟩ | none => ⟨40, []⟩)
+  | 1 => .recv b (fun r => match r with | some w => ⟨2, [l.reg.headD 0 - w]⟩ | none => ⟨41, []⟩)
+  | 2 => .send out (l.reg.headD 0) ⟨0, []⟩
+  | 40 => .close out ⟨10, []⟩
+  | 41 => .close out ⟨20, []⟩
+  | 10 => .recv b (fun r => match r with | some _ => ⟨10, []⟩ | none => ⟨31, []⟩)
+  | 20 => .recv a (fun r => match r with | some _ => ⟨20, []⟩ | none => ⟨31, []⟩)
+  | _ => .halt
+
+/-- processes: 0 producer, 1 Duplicate, 2 Pipe into the buffered channel, 3 Skip, 4 Subtract, 5 reader.
+    channels: 0 c, 1 d0, 2 d1, 3 buffered (capacity `buf`), 4 skipped, 5 result -/
+def changeNet (cap buf : Nat) : Network Loc Int where
+  act := fun p l =>
+    match p with
+    | 0 => producer 0 l
+    | 1 => dup2 0 1 2 l
+    | 2 => pipe 1 3 l
+    | 3 => skipM 2 4 l
+    | 4 => subtractNew 4 3 5 l
+    | 5 => sink 5 l
+    | _ => .halt
+  cap := fun c => match c with | 3 => buf | 5 => 0 | _ => cap
+  rd := fun c => match c with | 0 => 1 | 1 => 2 | 2 => 3 | 3 => 4 | 4 => 4 | _ => 5
+  wr := fun c => match c with | 0 => 0 | 1 => 1 | 2 => 1 | 3 => 2 | 4 => 3 | _ => 4
+
+def changeInit (xs : List Int) (k : Nat) : St Loc Int where
+  procs := fun p => match p with
+    | 0 => (⟨0, xs⟩, none)
+    | 3 => (⟨0, [(k : Int)]⟩, none)
+    | _ => (⟨0, []⟩, none)
+  chans := fun _ => ([], false)
+
+/-- (terminal reached, clean, values delivered) for `Change(xs, k)` with input capacity `cap` and a buffer of `buf` -/
+def changeRun (cap buf k : Nat) (xs : List Int) : Bool × Bool × List Int :=
+  let N := changeNet cap buf
+  let (s, term) := roundRobin N 6 (40 * (xs.length + 4)) (changeInit xs k)
+  (term, allHaltedB N 6 s, (s.procs 5).1.reg)
+
 end NetM
